@@ -9,7 +9,8 @@ import math
 from qverif.symtwin.verify import E2Contract, eq, true, Raised
 from ._cfg import make_csys, DIMS, stacked
 from .C03_e2 import n_var, empty_obj
-from .C08_all import build_qt, UNKNOWN
+from .C08_all import build_qt, UNKNOWN, schedule_variants
+from .C06_all import spec_chain, serial
 
 STD = "quara.protocol.qtomography.standard."
 
@@ -122,12 +123,27 @@ class LinearEstimate(E2Contract):
         r1 = est.calc_estimate(qt, d1)
         r2 = est.calc_estimate(qt, d2)
         rs = est.calc_estimate_sequence(qt, [d1, d2])
-        # exact data of the object that the variables x denote
-        p = A @ inp["x"] + b
-        exact, k = [], 0
-        for sz in inp["sizes"]:
-            exact.append((inp["n1"], p[k:k + sz]))
-            k += sz
+        # exact data of the object that the variables x denote: the Born statistics of every schedule's circuit, computed by the
+        # reference semantics (NOT through the model A, b under test: a model that disagrees with the circuits must not go unnoticed)
+        s, kind, on_para, over = cfg
+        c_sys, states, povms = exact_testers(W, s, over)
+        ukind = UNKNOWN[kind]
+        tmpl = empty_obj(W, ukind, c_sys, 3 if kind == "povmt" else 2, on_para)
+        unknown = tmpl.generate_from_var(W.np.copy(inp["x"]))
+        _, full = schedule_variants(kind, len(states), len(povms))
+        exact = []
+        for sch in full:
+            chain = []
+            for k_, i in reversed(sch):
+                if k_ == ukind:
+                    chain.append((k_, stacked(W, unknown)))
+                elif k_ == "state":
+                    chain.append((k_, [states[i].vec]))
+                else:
+                    chain.append((k_, list(povms[i].vecs)))
+            _, probs = spec_chain(W, c_sys, chain)
+            counts = [len(a) for k2, a in reversed(chain) if k2 in ("mprocess", "povm")]
+            exact.append((inp["n1"], W.np.array(serial(probs, counts))))
         rx = est.calc_estimate(qt, exact)
         # different sample counts attached to the same data
         r1b = est.calc_estimate(qt, [((inp["n2"] if j % 2 else 3 * inp["n1"]), fj) for j, fj in enumerate(inp["f"])])
